@@ -596,6 +596,76 @@ func TestC10(t *testing.T) {
 		}
 		c.Sig("quick-node-reuse", true)
 	})
+	// an on-disk tree in which some files are further names of one inode (hard links), and the tree in
+	// which the same names hold separate copies: the logical input - names and bytes - is the same
+	for i := 0; i < r.Pick(4, 30); i++ {
+		i := i
+		r.Case(fmt.Sprintf("fs-hardlinks-vs-copies/%d", i), map[string]any{"tree": i}, func(c *mon.Case) {
+			rr := c.Rand()
+			dir, err := os.MkdirTemp("", "verif-c10-")
+			if err != nil {
+				c.Harness("mktemp: %v", err)
+				return
+			}
+			defer os.RemoveAll(dir)
+			type fl struct {
+				path    string
+				content []byte
+				same    int // index of the file this one is another name of, or -1
+			}
+			var files []fl
+			for k := 0; k < 3+rr.Intn(6); k++ {
+				n := []int{0, 1 + rr.Intn(3000), 262144, 262145 + rr.Intn(300000), 3*262144 + rr.Intn(10)}[rr.Intn(5)]
+				sub := []string{"", "a", "a/b", "z"}[rr.Intn(4)]
+				files = append(files, fl{filepath.Join(sub, fmt.Sprintf("f%d", k)), gen.Content(rr, "rand", n), -1})
+				for h := rr.Intn(3); h > 0; h-- {
+					sub := []string{"", "a", "a/b", "z"}[rr.Intn(4)]
+					files = append(files, fl{filepath.Join(sub, fmt.Sprintf("f%d-name%d", k, h)), nil, len(files) - 1})
+				}
+			}
+			var res [2]buildResult
+			linked := 0
+			for v, root := range []string{filepath.Join(dir, "linked", "t"), filepath.Join(dir, "copied", "t")} {
+				for _, f := range files {
+					p := filepath.Join(root, f.path)
+					os.MkdirAll(filepath.Dir(p), 0o755)
+					var werr error
+					if f.same >= 0 && v == 0 {
+						src := f.same
+						for files[src].same >= 0 {
+							src = files[src].same
+						}
+						werr = os.Link(filepath.Join(root, files[src].path), p)
+						linked++
+					} else {
+						src := f
+						for src.same >= 0 {
+							src = files[src.same]
+						}
+						werr = os.WriteFile(p, src.content, 0o644)
+					}
+					if werr != nil {
+						c.Harness("preparing the tree: %v", werr)
+						return
+					}
+				}
+				st := store.New()
+				c.Guard("BuildUnixFSRecursive", func() {
+					l, sz, err := builder.BuildUnixFSRecursive(root, st.LinkSystem(false))
+					res[v] = buildResult{root: linkCid(l), size: sz}
+					if err != nil {
+						res[v].err = err.Error()
+					}
+				})
+			}
+			c.Count("builds_compared", 1)
+			c.Count("hard_linked_names", int64(linked))
+			if res[0].key() != res[1].key() {
+				c.Violation("C10|fs|hardlinks-vs-copies", "a tree of %d names of which %d are hard links imports as (%s, %d, err %q); the same names holding separate copies of the same bytes import as (%s, %d, err %q)", len(files), linked, res[0].root, res[0].size, res[0].err, res[1].root, res[1].size, res[1].err)
+			}
+			c.Sig(fmt.Sprintf("fs-hardlinks|%v", linked > 0), true)
+		})
+	}
 	r.Case("symlink", map[string]any{"targets": 6}, func(c *mon.Case) {
 		for _, tgt := range []string{"", "a", "../x/y", "/abs/target", "ünï", string(bytes.Repeat([]byte("p/"), 200))} {
 			var first buildResult
